@@ -515,6 +515,25 @@ func (c *FnCtx) trCall(e *Expr, env *Env) (Term, types.Type) {
 		m, mt := arg(0)
 		k, _ := arg(1)
 		return app("arrshift", m, k), mt
+	case "pkgvar":
+		// pkgvar("io.EOF"): value of a package-level variable of another package
+		if len(e.Args) != 1 || e.Args[0].Op != "str" {
+			c.specFail("pkgvar(\"pkg.Name\")")
+		}
+		parts := strings.SplitN(e.Args[0].Name, ".", 2)
+		if len(parts) != 2 {
+			c.specFail("pkgvar(\"pkg.Name\")")
+		}
+		for _, p := range c.g.allPkgs {
+			if p.Name() == parts[0] {
+				if o := p.Scope().Lookup(parts[1]); o != nil {
+					if v, ok := o.(*types.Var); ok {
+						return c.extGlobal(parts[0]+"."+parts[1], v.Type()), v.Type()
+					}
+				}
+			}
+		}
+		c.specFail("unknown package variable %s", e.Args[0].Name)
 	case "upd":
 		m, mt := arg(0)
 		k, _ := arg(1)
